@@ -154,6 +154,13 @@ func opEvent(op Op) ev {
 	return e
 }
 
+// scribble overwrites a buffer the harness has handed to the code under test and got back.
+func scribble(b []byte) {
+	for i := range b {
+		b[i] ^= 0x5a
+	}
+}
+
 func (w *world) descFields(e ev, desc ociregistry.Descriptor) {
 	e["d"] = w.cat.cidOfDigest(desc.Digest)
 	e["dsize"] = desc.Size
@@ -270,7 +277,9 @@ func (w *world) exec(ctx context.Context, op Op) (e ev) {
 	case "PushBlob":
 		c := cat.byID[op.C]
 		desc := ociregistry.Descriptor{MediaType: mtOctet, Digest: w.digestOf(op.DD), Size: int64(op.DS)}
-		var content io.Reader = bytes.NewReader(c.Data)
+		pbuf := append([]byte(nil), c.Data...)
+		defer scribble(pbuf)
+		var content io.Reader = bytes.NewReader(pbuf)
 		if op.Chunk == 1 {
 			// slow content: the registry sees the bytes one at a time with pauses in between,
 			// which keeps the call in flight while other goroutines look at the registry
@@ -413,7 +422,10 @@ func (w *world) exec(ctx context.Context, op Op) (e ev) {
 		if tag == "-" {
 			tag = ""
 		}
-		got, err := reg.PushManifest(ctx, op.R, tag, c.Data, mtConcrete[op.MT])
+		buf := append([]byte(nil), c.Data...)
+		got, err := reg.PushManifest(ctx, op.R, tag, buf, mtConcrete[op.MT])
+		// the contents belong to the caller again once the call has returned
+		scribble(buf)
 		observeErr(e, err)
 		if err == nil {
 			w.descFields(e, got)
@@ -447,7 +459,10 @@ func (w *world) exec(ctx context.Context, op Op) (e ev) {
 			e["op"] = "skip"
 			break
 		}
-		n, err := bw.Write(elemsToBytes(op.Data))
+		buf := elemsToBytes(op.Data)
+		n, err := bw.Write(buf)
+		// a Write must not retain its argument: the caller reuses the buffer at once
+		scribble(buf)
 		observeErr(e, err)
 		e["n"] = n
 	case "UpSize":
